@@ -424,6 +424,10 @@ def param_names(d):
             st.sampled_from(["a", "A", "k", "K", "Key", "KEY"])]
     if d not in ODL_FAMILY:
         opts.append(st.sampled_from(["a.b", "x/y", "long-name", "$v", "k@1", "*x", "a*b"]))
+    if d == "default":
+        # names beyond Latin-1, some of them not in Unicode NFC
+        opts.append(st.sampled_from(["Tempe\u0301rature", "R_\u2126", "a\u030a", "\u212b",
+                                     "\u03b1\u03b2", "nai\u0308ve"]))
     return st.one_of(*opts)
 
 
